@@ -8,9 +8,12 @@
    layer driving the read scopes for a target of a static shape (scalars, string, byte container, sequence
    containers, classes with string-named members loaded in declaration order, std::map<K, V> with K = std::string
    or an integer type loaded in mode m: SMap m ks e, std::array<T, N> / T[N]: SArr n e, std::vector<bool>: SVecBool,
-   std::tuple<T...>: STuple ss; std::pair is the class with the members "key" and "value").
+   std::tuple<T...>: STuple ss; std::optional<T> / std::unique_ptr<T> / std::shared_ptr<T>: SOpt e (content TNil =
+   empty; ownership is not modelled); std::pair is the class with the members "key" and "value").
    THE TARGET HOLDS A CONTENT i WHEN THE LOAD STARTS: load_tr s i v = (the scopes' answers as tokens, the result:
-   LOk x = loaded, the target holds x; LNot = not loaded, the target still holds i; LErr = exception) at the
+   LOk x = loaded, the target holds x; LNot = not loaded, the target still holds i; LReset x = Serialize returned
+   false but the target now holds x (a wrapper that was reset to empty); LErr = exception; keep i r = what the target
+   holds afterwards) at the
    association-list level; load_bytes_into s i b = reference decoder, then that; load_bytes = into default_of s.
    mmode = MapLoadMode: MClean | MOnlyExist | MUpdate.
    has_shape (TObj kvs) (SMap m ks e): the keys are of the key type ks and STRICTLY INCREASING (std::less<K>:
@@ -29,20 +32,29 @@ Local Open Scope N_scope.
 
 (* ---- save then load ---- *)
 (* for every value tree of the target's shape, whatever the policies AND WHATEVER THE TARGET HOLDS, the bytes
-   SaveObject produces load back to exactly that tree (std::map targets loaded with Clean).  This covers classes,
-   std::map<std::string, ...> / std::map<integer type, ...>, fixed-size arrays, tuples, vector<bool> at any depth.
-   Key conditions, all inside the hypotheses: has_shape gives keys of the map's key type in strictly increasing
-   order (hence pairwise different), wf_tv gives integer keys in the range of their type, doc_ok (abs v) gives
-   pairwise different member names in every class *)
-Theorem T_C01_mp_load_save_into : forall narrow widen o v s i b,
+   SaveObject produces load back to exactly that tree (std::map targets loaded with Clean): afterwards the target
+   holds the saved value, and no exception was raised.  This covers classes, std::map<std::string, ...> /
+   std::map<integer type, ...>, fixed-size arrays, tuples, vector<bool>, optional / unique_ptr / shared_ptr (empty or
+   not) at any depth.  Key conditions, all inside the hypotheses: has_shape gives keys of the map's key type in strictly
+   increasing order (hence pairwise different) and wrapped values that are never nil themselves, wf_tv gives integer
+   keys in the range of their type, doc_ok (abs v) gives pairwise different member names in every class *)
+Theorem T_C01_mp_load_save_holds : forall narrow widen o v s i b,
   has_shape v s = true -> clean_maps s = true -> wf_tv v -> doc_ok (abs v) = true -> save v = Some b ->
+  keep i (load_bytes_into narrow widen o s i b) = v /\ no_err (load_bytes_into narrow widen o s i b).
+Proof. exact load_save_holds. Qed.
+Print Assumptions T_C01_mp_load_save_holds.
+
+(* the result itself: LOk v — except for an EMPTY wrapper at the root, saved as nil, which is reset to empty
+   (Serialize returns false) *)
+Theorem T_C01_mp_load_save_into : forall narrow widen o v s i b,
+  not_opt s -> has_shape v s = true -> clean_maps s = true -> wf_tv v -> doc_ok (abs v) = true -> save v = Some b ->
   load_bytes_into narrow widen o s i b = LOk v.
 Proof. exact load_save_into. Qed.
 Print Assumptions T_C01_mp_load_save_into.
 
 (* ... into a value-initialised target (LoadObject into a fresh object) *)
 Theorem T_C01_mp_load_save : forall narrow widen o v s b,
-  has_shape v s = true -> clean_maps s = true -> wf_tv v -> doc_ok (abs v) = true -> save v = Some b ->
+  not_opt s -> has_shape v s = true -> clean_maps s = true -> wf_tv v -> doc_ok (abs v) = true -> save v = Some b ->
   load_bytes narrow widen o s b = LOk v.
 Proof. exact load_save. Qed.
 Print Assumptions T_C01_mp_load_save.
@@ -52,13 +64,17 @@ Print Assumptions T_C01_mp_load_save.
 Theorem T_C01_mp_load_save_shape_of : forall narrow widen o v b,
   has_shape v (shape_of v) = true -> wf_tv v -> doc_ok (abs v) = true -> save v = Some b ->
   load_bytes narrow widen o (shape_of v) b = LOk v.
-Proof. exact (fun narrow widen o v b Hs => load_save narrow widen o v (shape_of v) b Hs (shape_of_clean v)). Qed.
+Proof.
+  intros narrow widen o v b Hs. apply load_save; [|exact Hs | exact (shape_of_clean v)].
+  destruct v; exact I.
+Qed.
 Print Assumptions T_C01_mp_load_save_shape_of.
 
 (* at the association-list level, with the answers consumed *)
 Theorem T_C01_mp_load_save_spec : forall narrow widen o v s i,
   has_shape v s = true -> clean_maps s = true -> wf_tv v -> doc_ok (abs v) = true ->
-  exists toks, load_tr narrow widen o s i (abs v) = (toks, LOk v).
+  exists toks r, load_tr narrow widen o s i (abs v) = (toks, r) /\
+    (r = LOk v \/ (r = LReset TNil /\ v = TNil /\ is_opt s)).
 Proof. exact load_save_spec. Qed.
 Print Assumptions T_C01_mp_load_save_spec.
 
@@ -338,7 +354,8 @@ Print Assumptions T_C01_mp_tuple_example.
      member / element / component / mapped value that is not loaded holds afterwards is its content before (load_tr
      says so; known finding F36 of C18, by design): no "populated = fresh" theorem there, T_C01_mp_load_save_into
      covers the documents that load everything;
-   - enums, validation, smart pointers / optional;
+   - optional<nullptr_t> and wrappers of wrappers (an empty inner wrapper and an empty outer one are the same nil);
+     ownership (which object a shared_ptr shares, what a load that throws leaves allocated: C20); enums, validation;
    - loads that end in an exception: load_tr carries the policies and the error, but the program / transport
      theorems assume an error-free load (as T_C03_mp_refines does);
    - a scalar / string / byte container at the ROOT of the document on the scope model (the root scope's own
